@@ -955,11 +955,16 @@ func (s *Sim) genEvmTx(deploy bool) *TxSpec {
 	r := s.rng
 	from := s.pick(s.all)
 	if deploy {
-		progs := [][]byte{progStore(r), progForward(), progReverter(), progBalanceReader(), progSuicide(), progForwardAll(), progProbeRevert(), progCallIgnoring()}
-		names := []string{"store", "forward", "reverter", "balance-reader", "suicide", "forward-all", "probe-revert", "call-ignoring"}
+		// "empty-runtime": the constructor runs and returns no code (a deployment that succeeds and leaves
+		// an account without code); "raw-stop": the init code is a single STOP
+		progs := [][]byte{progStore(r), progForward(), progReverter(), progBalanceReader(), progSuicide(), progForwardAll(), progProbeRevert(), progCallIgnoring(), {}, nil}
+		names := []string{"store", "forward", "reverter", "balance-reader", "suicide", "forward-all", "probe-revert", "call-ignoring", "empty-runtime", "raw-stop"}
 		i := r.Intn(len(progs))
 		t := s.baseTx(6, from, make([]byte, 20))
 		t.Data = deployer(progs[i])
+		if names[i] == "raw-stop" {
+			t.Data = []byte{0x00}
+		}
 		t.Amount = fmt.Sprint(r.Intn(3) * 1000)
 		t.Gas = uint64(200000 + r.Intn(400000))
 		t.Note = "evm-deploy:" + names[i]
@@ -1010,6 +1015,16 @@ func (s *Sim) genEvmTx(deploy bool) *TxSpec {
 			t.Gas = uint64(21000 + r.Intn(30000))
 		}
 		t.Note = "evm-call"
+		if r.Intn(12) == 0 {
+			// gas limits of the order of the block's EVM gas pool (25,000,000): two of them do not fit into one block
+			t.Gas = uint64(9000000 + r.Intn(16000001))
+			t.Note = "evm-call-huge-gas-limit"
+			if r.Intn(2) == 0 {
+				u := s.baseTx(6, s.pick(s.all), c)
+				u.Data, u.Gas, u.Note = arg, uint64(9000000+r.Intn(16000001)), "evm-call-huge-gas-limit-2"
+				s.pending = append(s.pending, u)
+			}
+		}
 		return t
 	case 2:
 		t := s.baseTx(1, from, c)
